@@ -16,7 +16,18 @@ No interpretation happens here except:
     result and the new state of h; h is rebound) placed BEFORE the statement it occurs in, and the call is
     replaced by the temporary `$k`.  Hoisting is admitted only when the call is the first thing the statement
     evaluates (so that nothing is reordered), at most once per statement, never inside a part that may run
-    zero or several times; and h may occur in the function ONLY as the receiver of such calls (no alias)."""
+    zero or several times; and h may occur in the function ONLY as the receiver of such calls (no alias).
+  * `yield e` as a statement becomes SYield (the function is then run with run_gen: the list of yielded values).
+  * `E.shuffle(x)` as a statement (MUTATING_ARG_METHODS: the method changes its ARGUMENT in place) becomes
+    `x = E.shuffle(x)` - the specification of the method returns the new contents - admitted, like the
+    other mutations, only for a provably fresh un-escaped x.
+  * `warnings.warn(...)` as a statement (EFFECT_CALLS) becomes SLog: the call is recorded in a log.
+  * `try: A except C: B` becomes STry A B, whose handler runs in the environment the statement started in
+    and catches every exception.  Admitted only when (i) A consists of plain assignments / return / raise
+    (no mutation, no yield), (ii) B reads no name that A assigns, (iii) a name that A assigns and B does
+    not assign (unconditionally) is read nowhere outside A.  The class C is recorded in `catches_<f>`; that
+    A raises nothing but C must be argued in the template.
+  * `[e for a, b in it]` becomes ECompT (unpacking each element); `a[:, k]` the builtin "index[:,]"."""
 import ast
 import os
 from fractions import Fraction
@@ -109,6 +120,12 @@ def is_stateful_call(node):
             and node.func.attr in STATEFUL_METHODS)
 
 
+# methods that change their (single) argument in place; calls made for their effect on the world
+MUTATING_ARG_METHODS = {"shuffle"}
+EFFECT_CALLS = {"warnings.warn"}
+# builtin classes used as values (warnings.warn(msg, UserWarning))
+CLASS_NAMES = ("UserWarning", "FutureWarning", "DeprecationWarning", "RuntimeWarning")
+
 TYPE_NAMES = ("bool", "int", "float")
 FUNC_NAMES = ("sum", "len", "abs", "min", "max")
 
@@ -119,6 +136,8 @@ class Translator:
         self.locals = set()             # names bound in the function being translated
         self.handles = set()            # parameters whose state is changed by hoisted method calls
         self.ntemp = 0
+        self.catches = []               # the classes of the except clauses, in source order
+        self.is_generator = False
 
     def dotted(self, node):
         """a.b.c rooted at an imported module -> 'a.b.c', else None"""
@@ -177,6 +196,10 @@ class Translator:
         all / any, where any(e for i in A for j in B) is any(any(e for j in B) for i in A) (same order of
         evaluation, same laziness)"""
         g = generators[0]
+        if (not g.ifs and not g.is_async and isinstance(g.target, ast.Tuple) and len(generators) == 1
+                and all(isinstance(x, ast.Name) for x in g.target.elts)):
+            return "(ECompT %s %s %s %s)" % (kind, lst([cstr(x.id) for x in g.target.elts]), self.expr(g.iter),
+                                             self.expr(elt))
         if g.ifs or g.is_async or not isinstance(g.target, ast.Name):
             raise Unsupported("comprehension form")
         if len(generators) > 1:
@@ -195,6 +218,8 @@ class Translator:
                 raise Unsupported("module %s used as a value" % e.id)
             if e.id in TYPE_NAMES and e.id not in self.locals:
                 return "(EConst (VS %s))" % cstr("<type:%s>" % e.id)    # a type object used as a value (dtype=bool)
+            if e.id in CLASS_NAMES and e.id not in self.locals:
+                return "(EConst (VS %s))" % cstr("<class:%s>" % e.id)
             return "(EVar %s)" % cstr(e.id)
         if isinstance(e, ast.Constant):
             return const(e.value)
@@ -255,6 +280,10 @@ class Translator:
                     return "(ESliceFrom %s %s)" % (expr(e.value), cZ(int_const(sl.lower)))
                 raise Unsupported("slice form")
             if isinstance(sl, ast.Tuple):
+                if (len(sl.elts) == 2 and isinstance(sl.elts[0], ast.Slice) and sl.elts[0].lower is None
+                        and sl.elts[0].upper is None and sl.elts[0].step is None
+                        and not isinstance(sl.elts[1], ast.Slice)):
+                    return "(ECall %s %s)" % (cstr("index[:,]"), lst([expr(e.value), expr(sl.elts[1])]))
                 raise Unsupported("multi-dimensional index")
             if is_int_const(sl) and int_const(sl) >= 0:
                 return "(EIndex %s %s)" % (expr(e.value), cZ(int_const(sl)))
@@ -311,6 +340,58 @@ class Translator:
         else:
             getattr(parent, pfield)[pidx] = new
         return [pre]
+
+    def effect_call(self, s):
+        """warnings.warn(...) as a statement -> (name with keyword suffix, argument terms)"""
+        c = s.value
+        if not (isinstance(c, ast.Call) and self.dotted(c.func) in EFFECT_CALLS):
+            return None
+        if any(isinstance(a, ast.Starred) for a in c.args) or any(k.arg is None for k in c.keywords):
+            raise Unsupported("* / ** in call")
+        name = self.dotted(c.func) + "".join(",%s=" % k.arg for k in c.keywords)
+        return name, [self.expr(a) for a in c.args] + [self.expr(k.value) for k in c.keywords]
+
+    def mutating_arg_call(self, s):
+        """E.shuffle(x) as a statement, x a local name -> (E, "shuffle", x)"""
+        c = s.value
+        if (isinstance(c, ast.Call) and isinstance(c.func, ast.Attribute) and c.func.attr in MUTATING_ARG_METHODS
+                and self.dotted(c.func) is None):
+            if (len(c.args) == 1 and not c.keywords and isinstance(c.args[0], ast.Name)
+                    and c.args[0].id not in self.modules):
+                return c.func.value, c.func.attr, c.args[0].id
+            raise Unsupported("form of the in-place call " + c.func.attr)
+        return None
+
+    def try_stmt(self, s):
+        if len(s.handlers) != 1 or s.orelse or s.finalbody:
+            raise Unsupported("try form")
+        h = s.handlers[0]
+        if h.name is not None or not isinstance(h.type, ast.Name):
+            raise Unsupported("except form")
+        stored = set()
+        for b in s.body:
+            if isinstance(b, ast.Assign) and len(b.targets) == 1:
+                stored |= set(target_names(b.targets[0]))
+            elif not isinstance(b, (ast.Return, ast.Raise)):
+                raise Unsupported("%s inside try" % type(b).__name__)
+        if any(isinstance(x, (ast.Yield, ast.YieldFrom)) for b in s.body for x in ast.walk(b)):
+            raise Unsupported("yield inside try")
+        loads = lambda nodes: {x.id for b in nodes for x in ast.walk(b)
+                               if isinstance(x, ast.Name) and isinstance(x.ctx, ast.Load)}
+        if loads(h.body) & stored:
+            raise Unsupported("the handler reads %s, assigned in the try body" % sorted(loads(h.body) & stored))
+        rebound = set()
+        for b in h.body:
+            if isinstance(b, ast.Assign) and len(b.targets) == 1 and isinstance(b.targets[0], ast.Name):
+                rebound.add(b.targets[0].id)
+        inside = {id(x) for b in s.body for x in ast.walk(b)}
+        outside = {x.id for x in ast.walk(self.function)
+                   if isinstance(x, ast.Name) and isinstance(x.ctx, ast.Load) and id(x) not in inside}
+        if (stored - rebound) & outside:
+            raise Unsupported("%s: assigned in a try body, not in its handler, and read outside"
+                              % sorted((stored - rebound) & outside))
+        self.catches.append(h.type.id)
+        return "STry %s %s" % (self.stmts(s.body), self.stmts(h.body))
 
     def append_call(self, s):
         """x.append(e) as a statement, x a local name"""
@@ -394,6 +475,20 @@ class Translator:
                 out.append("SReturn %s" % (self.expr(s.value) if s.value is not None else "(EConst VNone)"))
             elif isinstance(s, ast.Pass):
                 out.append("SPass")
+            elif isinstance(s, ast.Expr) and isinstance(s.value, ast.Yield):
+                if s.value.value is None:
+                    raise Unsupported("bare yield")
+                self.is_generator = True
+                out.append("SYield %s" % self.expr(s.value.value))
+            elif isinstance(s, ast.Expr) and self.effect_call(s) is not None:
+                name, args = self.effect_call(s)
+                out.append("SLog %s %s" % (cstr(name), lst(args)))
+            elif isinstance(s, ast.Expr) and self.mutating_arg_call(s) is not None:
+                recv, meth, x = self.mutating_arg_call(s)
+                out.append("SAssign %s (ECall %s %s)" % (lst([cstr(x)]), cstr("meth:" + meth),
+                                                         lst([self.expr(recv), "(EVar %s)" % cstr(x)])))
+            elif isinstance(s, ast.Try):
+                out.append(self.try_stmt(s))
             elif isinstance(s, ast.Expr):
                 ap = self.append_call(s)
                 if ap is not None:
@@ -422,7 +517,7 @@ def target_names(t):
 # are joined by intersection, loop bodies are iterated to a fixed point, and a loop body may not mutate
 # a name that occurs in the loop's iterable.
 FRESH_LIST_CALLS = {"list"}
-FRESH_ARRAY_CALLS = {"np.array"}
+FRESH_ARRAY_CALLS = {"np.array", "np.unique"}      # always return a new array
 
 
 class Fresh:
@@ -456,6 +551,8 @@ class Fresh:
         elif (isinstance(e, ast.Call) and isinstance(e.func, ast.Name) and e.func.id == "len" and len(e.args) == 1
               and isinstance(e.args[0], ast.Name) and not e.keywords):
             pass
+        elif isinstance(e, ast.Attribute) and isinstance(e.value, ast.Name) and e.attr in ("size", "shape", "ndim"):
+            pass                 # reading a number / a tuple of numbers: no alias
         else:
             for c in ast.iter_child_nodes(e):
                 self.escaping(c, out)
@@ -533,6 +630,19 @@ class Fresh:
                         break
                     state.clear()
                     state.update(joined)
+            elif isinstance(s, ast.Try):
+                a = dict(state)
+                self.block(s.body, a, frozen)
+                b = dict(state)
+                for h in s.handlers:
+                    self.block(h.body, b, frozen)
+                state.clear()
+                state.update(self.join(a, b))
+            elif isinstance(s, ast.Expr) and self.tr.mutating_arg_call(s) is not None:
+                recv, meth, x = self.tr.mutating_arg_call(s)
+                self.escaping(recv, esc)
+                self.drop(state, esc)
+                self.need(state, x, ("list", "array"), frozen, "in-place " + meth)
             elif isinstance(s, ast.Expr):
                 ap = self.tr.append_call(s)
                 if ap is not None:
@@ -587,7 +697,16 @@ def translate(path, names):
             tr.locals = set(params) | {x.id for x in ast.walk(n) if isinstance(x, ast.Name) and isinstance(x.ctx, ast.Store)}
             tr.handles = set()
             tr.ntemp = 0
+            tr.catches = []
+            tr.is_generator = False
+            if any(isinstance(x, ast.YieldFrom) for x in ast.walk(n)):
+                raise Unsupported("yield from")
+            nyield = sum(isinstance(x, ast.Yield) for x in ast.walk(n))
             body = tr.stmts(n.body)
+            if nyield != body.count("SYield "):
+                raise Unsupported("yield used as an expression")
+            if nyield and any(isinstance(x, ast.Return) for x in ast.walk(n)):
+                raise Unsupported("return inside a generator")
             for h in tr.handles:
                 # a handle is a parameter and, once its state-changing calls are hoisted, occurs nowhere else
                 if h not in params:
@@ -600,6 +719,16 @@ def translate(path, names):
             ident = qual.replace(".", "_")
             found[qual] = "Definition src_%s : func :=\n  {| f_params := %s;\n     f_body := %s |}.\n" % (
                 ident, lst([cstr(p) for p in params]), body)
+            # the exception classes of the function's `raise` statements, in source order (PyLite has one
+            # exception; templates that care compare this list)
+            classes = []
+            for x in ast.walk(n):
+                if isinstance(x, ast.Raise):
+                    exc = x.exc.func if isinstance(x.exc, ast.Call) else x.exc
+                    classes.append(exc.id if isinstance(exc, ast.Name) else "?")
+            found[qual] += "Definition raises_%s : list string := %s.\n" % (ident, lst([cstr(c) for c in classes]))
+            if tr.catches:
+                found[qual] += "Definition catches_%s : list string := %s.\n" % (ident, lst([cstr(c) for c in tr.catches]))
             if cls is not None:
                 if cls.keywords and any(k.arg != "metaclass" for k in cls.keywords):
                     raise Unsupported("class keywords of " + cls.name)
